@@ -192,17 +192,76 @@ def _find_once(root, name):
     return found
 
 
+def _inline_attribute_aliases(fn, new_names):
+    """A new local bound once to a plain attribute path of self (`rng = self.rng`, `gp = self.gp`) that the function never
+    re-assigns is that attribute under another name: every use is written back."""
+    n = 0
+    if not fn.args.args:
+        return 0
+    sn = fn.args.args[0].arg
+    stores = {}
+    for x in ast.walk(fn):
+        if isinstance(x, ast.Name) and isinstance(x.ctx, (ast.Store, ast.Del)):
+            stores[x.id] = stores.get(x.id, 0) + 1
+    attr_stores = {ast.unparse(t) for x in ast.walk(fn) if isinstance(x, (ast.Assign, ast.AugAssign, ast.AnnAssign))
+                   for t in (x.targets if isinstance(x, ast.Assign) else [x.target]) for t in [t] if isinstance(t, ast.Attribute)}
+
+    def process(body):
+        nonlocal n
+        i = 0
+        while i < len(body):
+            st = body[i]
+            for arm in ("body", "orelse", "finalbody"):
+                sub = getattr(st, arm, None)
+                if isinstance(sub, list) and sub and isinstance(sub[0], ast.stmt) and not isinstance(st, (ast.FunctionDef, ast.ClassDef)):
+                    process(sub)
+            if isinstance(st, ast.Assign) and len(st.targets) == 1 and isinstance(st.targets[0], ast.Name) \
+                    and st.targets[0].id in new_names and stores.get(st.targets[0].id) == 1:
+                v = st.value
+                b = v
+                depth = 0
+                while isinstance(b, ast.Attribute):
+                    b = b.value
+                    depth += 1
+                if depth >= 1 and isinstance(b, ast.Name) and b.id == sn and ast.unparse(v) not in attr_stores \
+                        and not any(ast.unparse(v).startswith(a + ".") or a.startswith(ast.unparse(v) + ".") for a in attr_stores):
+                    name = st.targets[0].id
+
+                    class Sub(ast.NodeTransformer):
+                        def visit_Name(self, x):
+                            return copy.deepcopy(v) if x.id == name and isinstance(x.ctx, ast.Load) else x
+                    for other in ast.walk(fn):
+                        pass
+                    # substitute in every statement of the function (the alias is never re-bound)
+                    for holder in ast.walk(fn):
+                        for f_, val in list(ast.iter_fields(holder)):
+                            if isinstance(val, ast.expr) and holder is not st:
+                                setattr(holder, f_, Sub().visit(val))
+                            elif isinstance(val, list) and val and isinstance(val[0], ast.expr):
+                                setattr(holder, f_, [Sub().visit(e) for e in val])
+                    del body[i]
+                    n += 1
+                    continue
+            i += 1
+    process(fn.body)
+    return n
+
+
 def inline_new_temps(tree, rel):
     ref = _reference_locals().get(rel)
     if not ref:
         return 0
     total = 0
     for qn, fn in iter_functions(tree):
-        if qn == "__all__":
+        if qn in ("__all__", "__params__"):
             continue
         want = ref.get(qn) or []          # functions without locals are not listed
         have = function_locals(fn)
         new = [h for h in have if h not in want]
+        if new and len(have) > len(want):
+            total += _inline_attribute_aliases(fn, set(new))
+            have = function_locals(fn)
+            new = [h for h in have if h not in want]
         if not new or len(have) <= len(want):
             continue                          # nothing added (a pure renaming is P6's business)
         changed = True
@@ -327,7 +386,8 @@ class Program:
         for rel in trees:
             known = (_reference_locals().get(rel) or {}).get("__all__")
             known_by_rel[rel] = set(known) if known is not None else None
-        canonicalise_program(trees, known_by_rel)
+        params_by_rel = {rel: (_reference_locals().get(rel) or {}).get("__params__") for rel in trees}
+        canonicalise_program(trees, known_by_rel, params_by_rel)
         for rel, tree in trees.items():
             inline_new_temps(tree, rel)
             if accumulate_to_comprehension(tree):
